@@ -94,6 +94,10 @@ namespace OP2Utility::Tileset
 	{
 		ValidateTileset(tileset);
 
+		// The palette section always holds a full palette (its header promises DefaultPaletteHeaderSize bytes)
+		tileset.VerifyIndexedPaletteSizeDoesNotExceedBitCount();
+		tileset.palette.resize(DefaultPaletteHeaderSize / sizeof(Color), DiscreteColor::Black);
+
 		// OP2 Custom Tileset assumes a positive height and TopDown Scan Line (Contradicts Windows Bitmap File Format)
 		if (tileset.GetScanLineOrientation() == ScanLineOrientation::BottomUp) {
 			tileset.InvertScanLines();
